@@ -10,7 +10,13 @@ import (
 	"strings"
 	"time"
 
+	sdk "github.com/cosmos/cosmos-sdk/types"
+	authtypes "github.com/cosmos/cosmos-sdk/x/auth/types"
+	govtypes "github.com/cosmos/cosmos-sdk/x/gov/types"
+
 	clienttypes "github.com/bianjieai/tibc-go/modules/tibc/core/02-client/types"
+	routingtypes "github.com/bianjieai/tibc-go/modules/tibc/core/26-routing/types"
+	"github.com/bianjieai/tibc-go/modules/tibc/core/exported"
 	bsctypes "github.com/bianjieai/tibc-go/modules/tibc/light-clients/08-bsc/types"
 	ethtypes "github.com/bianjieai/tibc-go/modules/tibc/light-clients/09-eth/types"
 
@@ -173,6 +179,91 @@ func ethHistory(withSeal bool) (string, error) {
 	return fingerprint(w) + fmt.Sprintf(":accepted=%v", res.OK()), nil
 }
 
+// govHistory: governance operations executed as x/gov executes a passed proposal (message router, authority = gov
+// module account) on chain A, each followed by a block: clients of two types created, one upgraded, relayer lists and
+// routing-rule lists with several entries replaced twice, refused variants in between, then header updates signed by
+// old and new relayers. The fingerprint covers every block and every handler result (error text, events).
+func govHistory() (string, error) {
+	gov := authtypes.NewModuleAddress(govtypes.ModuleName).String()
+	w := world.NewWorld(world.WorldOpts{Names: []string{A, B, C}})
+	a := w.C(A)
+	h := sha256.New()
+	exec := func(msg sdk.Msg) {
+		ctx := a.Ctx()
+		var res *sdk.Result
+		var err error
+		func() {
+			defer func() {
+				if r := recover(); r != nil {
+					err = fmt.Errorf("panic: %v", r)
+				}
+			}()
+			res, err = a.App.MsgServiceRouter().Handler(msg)(ctx, msg)
+		}()
+		fmt.Fprintf(h, "%T err=%v\n", msg, err)
+		if res != nil {
+			for _, e := range res.Events {
+				fmt.Fprintf(h, " %s", e.Type)
+				for _, at := range e.Attributes {
+					fmt.Fprintf(h, " %s=%s", at.Key, at.Value)
+				}
+				fmt.Fprintln(h)
+			}
+		}
+		a.CommitEmpty(w.Tick())
+	}
+	create := func(name string, cs exported.ClientState, cons exported.ConsensusState, authority string) sdk.Msg {
+		m, err := clienttypes.NewMsgCreateClient(name, cs, cons, authority)
+		must(err)
+		m.ChainName, m.Title, m.Description = name, "t", "d"
+		return m
+	}
+	c := w.C(C)
+	tcs, tcons := c.ClientStateFor(c.Height())
+	hdr, vals := bscScenario{N: 3, Epoch: 4}.genesis()
+	var vb [][]byte
+	for _, v := range sortedAddrs(vals) {
+		vb = append(vb, v.Bytes())
+	}
+	bcs := &bsctypes.ClientState{Header: hdr, ChainId: 56, Epoch: 4, BlockInteval: 3, Validators: vb, ContractAddress: make([]byte, 20), TrustingPeriod: 1 << 30}
+	bcons := &bsctypes.ConsensusState{Timestamp: hdr.Time, Number: hdr.Height, Root: hdr.Root}
+	var addrs []string
+	for _, acc := range a.Accounts {
+		addrs = append(addrs, acc.Addr.String())
+	}
+	exec(create("nchainnnn", tcs, tcons, gov))
+	exec(create("bscchainb", bcs, bcons, gov))
+	exec(create("nchainnnn", tcs, tcons, gov))      // refused: exists
+	exec(create("xchainxxx", tcs, tcons, addrs[2])) // refused: not the authority
+	b := w.C(B)
+	ucs, ucons := b.ClientStateFor(b.Height())
+	acs, err := clienttypes.PackClientState(ucs)
+	must(err)
+	acons, err := clienttypes.PackConsensusState(ucons)
+	must(err)
+	exec(&clienttypes.MsgUpgradeClient{Title: "t", Description: "d", ChainName: B, ClientState: acs, ConsensusState: acons, Authority: gov})
+	exec(&clienttypes.MsgRegisterRelayer{Title: "t", Description: "d", ChainName: B, Relayers: addrs, Authority: gov})
+	exec(&clienttypes.MsgRegisterRelayer{Title: "t", Description: "d", ChainName: "uchainuuu", Relayers: addrs[1:3], Authority: gov})
+	exec(&clienttypes.MsgRegisterRelayer{Title: "t", Description: "d", ChainName: B, Relayers: []string{addrs[3], addrs[1]}, Authority: gov})
+	exec(&routingtypes.MsgSetRoutingRules{Title: "t", Description: "d", Rules: []string{"x,y,z", "*,*,NFT", A + "," + C + ",*", "q,*,MT", "*,r,s"}, Authority: gov})
+	exec(&routingtypes.MsgSetRoutingRules{Title: "t", Description: "d", Rules: []string{"x,y"}, Authority: gov}) // refused
+	exec(&routingtypes.MsgSetRoutingRules{Title: "t", Description: "d", Rules: []string{"*,*,*", "b,a,c"}, Authority: gov})
+	// header updates as signed transactions: a relayer that was replaced, a current one, an arbitrary account
+	for _, i := range []int{0, 1, 2} {
+		b.CommitEmpty(w.Tick())
+		latest, ok := w.ClientLatest(a, b)
+		if !ok {
+			return "", fmt.Errorf("client of %s lost", B)
+		}
+		msg, err := clienttypes.NewMsgUpdateClient(B, b.Header(b.Height(), latest), a.Accounts[i].Addr)
+		must(err)
+		res := w.Tx(a, a.Accounts[i], msg)
+		fmt.Fprintf(h, "update by %d code=%d log=%s\n", i, res.Code, res.Log)
+	}
+	fmt.Fprintf(h, "%s", fingerprint(w))
+	return fmt.Sprintf("%x", h.Sum(nil)[:16]), nil
+}
+
 // c20Histories builds the list of histories; packet histories are deepest paths of the explored graphs.
 func c20Histories(tier string, pathsPerModel int, depth int) []c20history {
 	var hs []c20history
@@ -190,7 +281,7 @@ func c20Histories(tier string, pathsPerModel int, depth int) []c20history {
 			hs = append(hs, c20history{Name: fmt.Sprintf("%s#%d:%s", n, i, strings.Join(p, ">")), Run: func() (string, error) { return mk().ReplayPath(p) }})
 		}
 	}
-	hs = append(hs, c20history{"bsc-client-updates", bscHistory},
+	hs = append(hs, c20history{"governance-operations", govHistory}, c20history{"bsc-client-updates", bscHistory},
 		c20history{"eth-client-fork-updates", func() (string, error) { return ethHistory(false) }},
 		c20history{"eth-client-mainnet-seal", func() (string, error) { return ethHistory(true) }})
 	return hs
